@@ -119,7 +119,11 @@ var BaseStrategies = []*StratEntity{
 		if c == nil {
 			return st.NewTripleMovingAverageCrossoverStrategy()
 		}
+		// the slow period has to be the longest; fast and medium may come in either order
 		s := sorted(c)
+		if c[0] > c[1] {
+			return st.NewTripleMovingAverageCrossoverStrategyWith(s[1], s[0], s[2])
+		}
 		return st.NewTripleMovingAverageCrossoverStrategyWith(s[0], s[1], s[2])
 	}},
 	{Name: "trend.Trix", NCfg: 1, Make: withField(func() strategy.Strategy { return st.NewTrixStrategy() }, "Trix", "trend.Trix")},
@@ -216,7 +220,20 @@ var stratByName = map[string]*StratEntity{}
 
 // Combinators (need Subs).
 var combinators = []string{"strategy.And", "strategy.Or", "strategy.Majority", "strategy.Split",
-	"decorator.Inverse", "decorator.NoLoss", "decorator.StopLoss"}
+	"decorator.Inverse", "decorator.NoLoss", "decorator.StopLoss", "registry.And", "registry.Split"}
+
+// registryPair returns the members (i, j) of the k-th compound that AllAndStrategies /
+// AllSplitStrategies build from n pairwise different strategies: every ordered pair of two
+// different ones, first member in the outer loop.
+func registryPair(n, k int) (int, int) {
+	k %= n * (n - 1)
+	i := k / (n - 1)
+	j := k % (n - 1)
+	if j >= i {
+		j++
+	}
+	return i, j
+}
 
 func init() {
 	for _, e := range BaseStrategies {
@@ -243,6 +260,15 @@ func buildStrategy(s SubSpec) strategy.Strategy {
 		return strategy.NewMajorityStrategyWith("majority", subs)
 	case "strategy.Split":
 		return strategy.NewSplitStrategy(subs[0], subs[1])
+	case "registry.And", "registry.Split":
+		if len(subs) < 2 {
+			return subs[0] // shrunk below a pair
+		}
+		if s.Entity == "registry.Split" {
+			return strategy.AllSplitStrategies(subs)[s.Cfg[0]%(len(subs)*(len(subs)-1))]
+		}
+		// the compound as the registry function builds it: one of the pairs over the members
+		return strategy.AllAndStrategies(subs)[s.Cfg[0]%(len(subs)*(len(subs)-1))]
 	case "decorator.Inverse":
 		return decorator.NewInverseStrategy(subs[0])
 	case "decorator.NoLoss":
@@ -299,6 +325,9 @@ func genBaseSpec(rng *rand.Rand, allowDefault bool) SubSpec {
 		s.Cfg = make([]int, e.NCfg)
 		for i := range s.Cfg {
 			s.Cfg[i] = 2 + rng.Intn(8)
+			if rng.Intn(12) == 0 {
+				s.Cfg[i] = 15 + rng.Intn(30) // longer than the usual defaults (14, 20, 26)
+			}
 		}
 	case x < 85 || !allowDefault:
 		s.Scale = []int{2, 3, 4, 6, 8}[rng.Intn(5)]
@@ -332,6 +361,19 @@ func genStratSpec(rng *rand.Rand, depth int, allowDefault bool) SubSpec {
 		n = 1 + rng.Intn(4)
 	case "strategy.Split":
 		n = 2
+	case "registry.And", "registry.Split":
+		// three members of different types (the registry functions tell strategies apart by
+		// identity; values of a zero-size type would count as one)
+		s.Cfg = []int{rng.Intn(6)}
+		used := map[string]bool{"strategy.BuyAndHold": true}
+		for len(s.Subs) < 3 {
+			b := genBaseSpec(rng, allowDefault)
+			if !used[b.Entity] {
+				used[b.Entity] = true
+				s.Subs = append(s.Subs, b)
+			}
+		}
+		return s
 	case "decorator.StopLoss":
 		s.Pct = []float64{0.01, 0.05, 0.2, 1, 2}[rng.Intn(5)] // 1 and 2: a stop that can never trigger
 	}
